@@ -12,6 +12,7 @@ import (
 	"strconv"
 	"strings"
 	"sync"
+	"time"
 	"unsafe"
 )
 
@@ -66,6 +67,7 @@ func next(kind string) uint64 {
 	mu.Lock()
 	defer mu.Unlock()
 	load()
+	skipEngineOnly()
 	if ni >= len(rp.Nondet) {
 		// inputs beyond the recorded ones are unconstrained: use zero
 		ni++
@@ -79,6 +81,15 @@ func next(kind string) uint64 {
 	}
 	v, _ := strconv.ParseUint(r.Value, 10, 64)
 	return v
+}
+
+// skipEngineOnly passes over recorded values of sources that only the engine replaces by a
+// nondeterministic value (math/rand: natively the real generator runs, and the properties that use
+// it hold for every outcome).
+func skipEngineOnly() {
+	for ni < len(rp.Nondet) && rp.Nondet[ni].Kind == "rand" {
+		ni++
+	}
 }
 
 // ---- nondeterministic inputs (intrinsic) ----
@@ -117,6 +128,7 @@ var nAsserts int
 func EndLine() string {
 	mu.Lock()
 	defer mu.Unlock()
+	skipEngineOnly()
 	return fmt.Sprintf("ZV: END asserts=%d nondet=%d choices=%d", nAsserts, ni, ci)
 }
 
@@ -298,6 +310,18 @@ func MapOrderMode(k int) {}
 func Note(s string)      {}
 func Share(p any)        {}
 func ShareNoRaceCheck(p any) {}
+
+// FiredCount is the number of timers the environment has fired so far.
+func FiredCount() int { mu.Lock(); defer mu.Unlock(); return firedN }
+
+// NoteFired is called by the time shim (native replay only).
+func NoteFired() { mu.Lock(); firedN++; mu.Unlock() }
+
+var firedN int
+
+// Settle lets the background goroutines of the code under test run until they block (engine:
+// exact; native replay: a short real sleep).
+func Settle() { time.Sleep(30 * time.Millisecond) }
 
 // PreemptBound limits the pre-emptive context switches per execution in the following Par
 // (-1 = unbounded); a stated bound of the harness. Native: no effect (the search is guided).
@@ -757,7 +781,7 @@ func RunSchedules(harness func()) {
 	once := os.Getenv("ZV_SCHED") == "guided" // one run following the engine's schedule
 	resetInputs := func() {
 		mu.Lock()
-		ni, ci, stamp, nAsserts = 0, 0, 0, 0
+		ni, ci, stamp, nAsserts, firedN = 0, 0, 0, 0, 0
 		mu.Unlock()
 		for _, h := range ResetHooks {
 			h()
